@@ -98,3 +98,22 @@ def try_generate(req):
         return generate_inproc(req), None
     except BaseException as e:  # noqa: the generator may raise anything
         return None, (crash_signature(e), str(e)[:300])
+
+
+def materialise_pb2(root, fdp):
+    """write a `*_pb2.py` module for a dependency FileDescriptorProto (protoc is absent; this is the same
+    three-line body protoc emits, built on protobuf's own `builder`)"""
+    mod_path = fdp.name[: -len(".proto")] + "_pb2"
+    path = os.path.join(root, mod_path + ".py")
+    os.makedirs(os.path.dirname(path), exist_ok=True)
+    deps = "".join(f"import {d[:-len('.proto')].replace('/', '.')}_pb2  # noqa\n" for d in fdp.dependency)
+    body = (
+        "from google.protobuf import descriptor_pool as _descriptor_pool\n"
+        "from google.protobuf.internal import builder as _builder\n" + deps +
+        f"DESCRIPTOR = _descriptor_pool.Default().AddSerializedFile({fdp.SerializeToString()!r})\n"
+        "_globals = globals()\n"
+        "_builder.BuildMessageAndEnumDescriptors(DESCRIPTOR, _globals)\n"
+        f"_builder.BuildTopDescriptorsAndMessages(DESCRIPTOR, {mod_path.replace('/', '.')!r}, _globals)\n")
+    with open(path, "w") as fh:
+        fh.write(body)
+    return path
